@@ -225,3 +225,38 @@ def run(ctx):
                    bool(rereads) and no_lock,
                    "stall loop %s its tree counter each iteration and the function holds %s lock" % ("re-reads" if rereads else "does NOT re-read", "no" if no_lock else "a"))
     ctx.floor("R-C14.5", "stall loops", loops, 2)
+
+    # ---- R-C14.5 a sealed memtable always gets a flush task: writers of a keyspace with 4 sealed memtables wait in
+    # local_backpressure() until a flush removes one — if the rotation that sealed a memtable does not enqueue a task for
+    # THIS keyspace and wake a worker, nobody ever flushes it and its writers wait forever
+    irm = ctx.fn("keyspace::Keyspace::inner_rotate_memtable", "R-C14.5")
+    if irm:
+        og = ctx.og(irm)
+        rot = [b for b, t in irm.calls() if A.cname(t).endswith("AbstractTree>::rotate_memtable")]
+        enq = []
+        for b, t in irm.calls():
+            if A.cname(t) == "flush::manager::FlushManager::enqueue":
+                task = og.of_operand(t["args"][1])
+                own = any(x.k == "agg" and str(x.a[0]).endswith("Task") for x in A.walk(task)) and any(x.k == "param" and x.a[0] == 1 for x in A.walk(task))
+                if own:
+                    enq.append(b)
+        wake = [b for b, t in irm.calls() if A.cname(t).startswith("flume::Sender") and A.cname(t).rsplit("::", 1)[-1] in ("send", "try_send")
+                and A.variants_in(og.of_operand(t["args"][1]), "WorkerMessage") == {"Flush"}]
+        ok = False
+        detail = "inner_rotate_memtable does not seal / enqueue / wake"
+        if rot and enq and wake:
+            sw = A.switch_after_call(irm, rot[0])
+            some_t = []
+            if sw is not None:
+                _, labels = A.switch_info(irm, sw)
+                some_t = [tg for tg, ns in labels.items() if "Some" in ns]
+            errs = list(A.error_starts(irm))
+            r1 = A.reach(irm, some_t, avoid=enq + errs)
+            r2 = A.reach(irm, some_t, avoid=wake + errs)
+            miss_enq = [x for x in irm.return_blocks() if x in r1]
+            miss_wake = [x for x in irm.return_blocks() if x in r2]
+            ok = bool(some_t) and not miss_enq and not miss_wake
+            detail = "after a memtable was sealed, every path enqueues a flush task for this keyspace and sends WorkerMessage::Flush" if ok else \
+                "a memtable can be sealed without %s: it is never flushed, and once four sealed memtables pile up every writer of the keyspace waits in local_backpressure() forever" % (
+                    "a flush task for this keyspace being enqueued (e.g. skipped when the SHARED flush queue is not empty)" if miss_enq else "a worker being woken (WorkerMessage::Flush)")
+        ctx.ob("R-C14.5", irm, "sealed-memtable-always-gets-a-flush-task", ok, detail)
